@@ -22,7 +22,13 @@ RULE = ("api: every sequence of <=3 (quick) / <=4 (thorough) calls over a 13-cal
         "3-operand products) x all pairs of small leaf fibers, plus seeded random shapes (all loop orders) x random "
         "operands of depth 1-3 with explicit zeros, empty sub-fibers, cancelling sums, empty operands, preloaded "
         "outputs, declared/undeclared output shape, format-U leaf ranks x every kind of trace subset (none, iter, "
-        "all eight trace types, random) x 0-3 earlier sessions. non-trivial api case = a session with at least one "
+        "all eight trace types, random) x 0-3 earlier sessions x innermost statement spelled with __mul__/__rmul__/__imul__/"
+        "__add__/__radd__/__iadd__/__ilshift__ x kernel applied twice to the same objects / operands reused from an earlier "
+        "collecting session / objects built inside the bracket x operand shapes exact, larger, estimated x coordinates up to 11; "
+        "program (no Lean model, spec on the implementation's observations): the C06 program generator (tilings, right-nested and "
+        "hoisted intersections, Fiber.intersection two-finger / leader-follower / filtered) x format U on any rank of any operand or "
+        "of the output, unowned-fiber operands with their own rank attributes, int / float / bool values, same reuse variants; all "
+        "kernel kinds also compare output attributes (ids, shape, default, formats) and the operands left behind off vs on. non-trivial api case = a session with at least one "
         "counter or started trace; non-trivial kernel case = at least one loop body ran and a trace or counter moved")
 
 RANKS = ["M", "K", "N"]
@@ -321,7 +327,7 @@ def gen_api(rng, tier):
         for combo in itertools.product(ALPHABET, repeat=n):
             ops = prelude + [list(o) for o in combo]
             yield {"prop": PROP, "kind": "api", "ops": ops + [["endCollect"]], "sess_start": -1}
-    nrand = 2000 if tier == "quick" else 60000
+    nrand = 1500 if tier == "quick" else 60000
     for i in range(nrand):
         ops = []
         for _ in range(rng.choice([0, 1, 1, 2, 3])):
@@ -392,7 +398,8 @@ def _trace_choice(rng, loops):
     return [[v, t] for v in RANKS for t in TYPES if rng.random() < 0.3]
 
 
-def _hist(rng, pfx):
+def _hist(rng, pfx, names=None):
+    names = names or RANKS
     ops = []
     for _ in range(rng.choice([0, 0, 1, 1, 2, 3])):
         p = pfx if rng.random() < 0.7 else rng.choice(PFX)
@@ -401,8 +408,8 @@ def _hist(rng, pfx):
             s = [["beginCollect", p]]
             if rng.random() < 0.3:
                 s.insert(0, ["setNumCachedUses", rng.choice([2, 3, 5])])
-            ranks = rng.sample(RANKS, rng.randrange(1, 4))
-            s += [["trace", r, "iter", False] for r in RANKS if rng.random() < 0.7]
+            ranks = rng.sample(names, rng.randrange(1, min(3, len(names)) + 1))
+            s += [["trace", r, "iter", False] for r in names if rng.random() < 0.7]
             s += _nest_body(rng, ranks, ["iter"])
             if rng.random() < 0.85:
                 s.append(["endCollect"])
@@ -413,7 +420,7 @@ def _hist(rng, pfx):
 
 
 def _mk_kernel(rng, loops, out, opranks, n=None, small=None):
-    n = n or rng.choice([2, 3, 4])
+    n = n or rng.choice([2, 3, 4, 4, 3, 2, 3, 12])      # 12: coordinates 9, 10, 11 (string vs numeric order in the files)
     pool = (1, 2, -1, -2, 3, 0)
     ops = []
     for rk in opranks:
@@ -422,7 +429,7 @@ def _mk_kernel(rng, loops, out, opranks, n=None, small=None):
         elif rng.random() < 0.06:
             t = []
         else:
-            t = H.gen_tree(rng, len(rk), n, pool, 0, p_absent=rng.choice([0.05, 0.2, 0.4]))
+            t = H.gen_tree(rng, len(rk), n, pool, 0, p_absent=(rng.choice([0.5, 0.7]) if n > 4 else rng.choice([0.05, 0.2, 0.4])))
         ops.append({"ranks": rk, "t": t})
     if out and rng.random() < 0.2:
         z = H.gen_tree(rng, len(out), n, pool, 0, p_absent=0.5)
@@ -433,14 +440,44 @@ def _mk_kernel(rng, loops, out, opranks, n=None, small=None):
     case = {"prop": PROP, "kind": "kernel", "loops": loops, "out": out, "declared": rng.random() < 0.7,
             "n": n, "z": z, "ops": ops, "traces": _trace_choice(rng, loops), "pfx": rng.choice(PFX)}
     case["hist"] = _hist(rng, case["pfx"])
-    # a format-"U" leaf rank, where the family allows it
-    if rng.random() < 0.1:
+    # operand shapes: declared exactly, declared larger than needed, or only estimated by the library
+    for o in ops:
+        o["shape"] = rng.choice(["exact", "exact", "larger", "estimated"])
+    case["zshape"] = rng.choice(["exact", "larger"])
+    # a format-"U" leaf rank, where the family allows it (its extent: declared, or the estimate = the largest
+    # coordinate stored anywhere in that rank + 1)
+    if rng.random() < 0.12:
         for o in ops:
             v = o["ranks"][-1]
             if v not in out and sum(1 for o2 in ops if v in o2["ranks"]) == 1 and len(o["ranks"]) >= 1:
-                o["ushape"] = n
+                o["ushape"] = _extent(o, n)
                 break
+    # how the innermost statement is spelled, and how the objects are (re)used
+    case["body"] = rng.choice(["iadd", "iadd", "rmul", "add_assign", "radd_assign", "imul"])
+    u = rng.random()
+    if u < 0.08:
+        case["repeat"] = 2
+    elif u < 0.16:
+        case["pre"] = 1
+    elif u < 0.3:
+        case["inside"] = 1
     return case
+
+
+def _leaf_coords(t, depth):
+    if depth == 1:
+        return [c for c, _ in t]
+    return [c for _, s in t for c in _leaf_coords(s, depth - 1)]
+
+
+def _extent(o, n):
+    mode = o.get("shape", "exact")
+    if mode == "exact":
+        return n
+    if mode == "larger":
+        return n + 3
+    cs = _leaf_coords(o["t"], len(o["ranks"]))
+    return (max(cs) + 1) if cs else 0
 
 
 def gen_kernel(rng, tier):
@@ -456,7 +493,13 @@ def gen_kernel(rng, tier):
                 c["z"] = ([] if out else 0) if k % 3 else ([[0, 1]] if out else 1)
                 c["declared"] = bool(k % 2)
                 c["hist"] = [] if k % 5 else c["hist"]
-                c.pop("ushape", None)
+                for key in ("repeat", "pre", "inside"):
+                    c.pop(key, None)
+                for o in c["ops"]:
+                    o.pop("ushape", None)
+                c["body"] = ["iadd", "rmul", "add_assign", "radd_assign", "imul"][k % 5]
+                if k % 7 == 0:
+                    c["repeat"] = 2
                 yield c
     reps = 30 if tier == "quick" else 1200
     for loops, out, opr in CLASSIC:
@@ -468,11 +511,178 @@ def gen_kernel(rng, tier):
         yield _mk_kernel(rng, loops, out, opr)
 
 
+
+# ---------------------------------------------------------------------------------------
+# programs of the whole C06 family (spec evaluated on the implementation's observations only)
+# ---------------------------------------------------------------------------------------
+
+def _k6():
+    from harness.props import c06
+    return c06
+
+
+def _scale(t, depth, f):
+    if depth == 0:
+        return f(t)
+    return [[c, _scale(s, depth - 1, f)] for c, s in t]
+
+
+VALS = {"int": lambda v: v, "float": lambda v: v * 0.5, "bool": lambda v: bool(v)}
+
+
+def _mk_program(rng, c6):
+    K6 = _k6()
+    opranks, zranks = K6.plan(c6)
+    tiles = c6["tiles"]
+    names = [K6.lname(l, tiles) for l in c6["order"]]
+    case = {"prop": PROP, "kind": "program", "k6": {k: v for k, v in c6.items() if k != "prop"},
+            "ranks": names, "style": c6["style"], "tiled": int(bool(tiles)), "pfx": rng.choice(PFX),
+            "zdecl": rng.random() < 0.65, "vals": rng.choice(["int", "int", "int", "float", "float", "bool"])}
+    u = rng.random()
+    case["traces"] = ([] if u < 0.1 else [[v, "iter"] for v in names] if u < 0.4 else
+                      [[v, t] for v in names for t in TYPES] if u < 0.55 else
+                      [[v, t] for v in names for t in TYPES if rng.random() < 0.3])
+    case["hist"] = _hist(rng, case["pfx"], names)
+    # formats: "U" on any rank of any operand / of the destination
+    fmt = []
+    if rng.random() < 0.35:
+        cands = [[i, K6.lname(l, tiles)] for i, r in enumerate(opranks) for l in r] + [["Z", K6.lname(l, tiles)] for l in zranks]
+        for c in cands:
+            if rng.random() < 0.35:
+                fmt.append(c)
+    case["fmtU"] = fmt
+    case["nU"] = len(fmt)
+    # a one-rank untiled operand handed over as a bare (unowned) fiber that carries its own rank attributes
+    case["bare"] = 0
+    if rng.random() < 0.15:
+        for i, op in enumerate(c6["ops"]):
+            if len(op["ranks"]) == 1 and not any(v == op["ranks"][0] for v, _ in tiles):
+                case["bare"], case["bare_op"] = 1, i
+                break
+    # ranks walked densely: the loop's only source is one operand in format "U", and it is not an output rank
+    solo = []
+    pos = [0] * len(opranks)
+    for l in c6["order"]:
+        parts = [i for i in range(len(opranks)) if pos[i] < len(opranks[i]) and opranks[i][pos[i]] == l]
+        nm = K6.lname(l, tiles)
+        if len(parts) == 1 and l not in zranks and [parts[0], nm] in fmt:
+            solo.append(nm)
+        for i in parts:
+            pos[i] += 1
+    case["solo_u"] = solo
+    u = rng.random()
+    if u < 0.08:
+        case["repeat"] = 2
+    elif u < 0.16:
+        case["pre"] = 1
+    elif u < 0.3:
+        case["inside"] = 1
+    return case
+
+
+def gen_program(rng, seed, tier):
+    K6 = _k6()
+    base = [c for c in K6.gen(seed, "quick") if K6.well_formed(c)]
+    want = 900 if tier == "quick" else 30000
+    stride = max(1, len(base) // want)
+    for c6 in base[rng.randrange(stride)::stride]:
+        yield _mk_program(rng, c6)
+
+
+class _Bare:
+    def __init__(self, f):
+        self.f = f
+
+    def getRoot(self):
+        return self.f
+
+
+class _ProgramRunner:
+    @staticmethod
+    def build_ops(case):
+        K6, ft = _k6(), H.ft()
+        c6 = case["k6"]
+        n, tiles = c6["n"], c6["tiles"]
+        opranks, _ = K6.plan(c6)
+        f = VALS[case["vals"]]
+        tensors = []
+        for i, (op, target) in enumerate(zip(c6["ops"], opranks)):
+            d = len(op["ranks"])
+            fib = H.build_fiber(_vals_tree(op["t"], d, f), d, 0)
+            if case.get("bare") and case.get("bare_op") == i:
+                fib.getRankAttrs().setId(K6.lname(target[0], tiles))
+                if c6.get("declared", True):
+                    fib.getRankAttrs().setShape(n)
+                if [i, K6.lname(target[0], tiles)] in case["fmtU"]:
+                    fib.getRankAttrs().setFormat("U")
+                tensors.append(_Bare(fib))
+                continue
+            kw = {"shape": [n] * d} if c6.get("declared", True) else {}
+            T = ft.Tensor.fromFiber(rank_ids=[str(v) for v in op["ranks"]], fiber=fib, default=0, **kw)
+            for v, step in tiles:
+                if v in op["ranks"]:
+                    T = T.splitUniform(step, rankid=str(v))
+            T = T.swizzleRanks([K6.lname(l, tiles) for l in target])
+            for who, nm in case["fmtU"]:
+                if who == i:
+                    T.setFormat(nm, "U")
+            tensors.append(T)
+        return tensors
+
+    @staticmethod
+    def new_z(case, pre=False):
+        K6, ft = _k6(), H.ft()
+        c6 = case["k6"]
+        _, zranks = K6.plan(c6)
+        ids = [K6.lname(l, c6["tiles"]) for l in zranks]
+        if (pre or case["zdecl"]) and ids:
+            Z = ft.Tensor(rank_ids=ids, shape=[c6["n"]] * len(ids), default=0)
+        else:
+            Z = ft.Tensor(rank_ids=ids, default=0)
+        for who, nm in case["fmtU"]:
+            if who == "Z":
+                Z.setFormat(nm, "U")
+        return Z
+
+    @staticmethod
+    def execute(case, ops, z, bodies):
+        K6, ft = _k6(), H.ft()
+        c6 = case["k6"]
+        src = case.get("_src")
+        if src is None:
+            lines = []
+            for ln in K6.render(c6).split("\n"):
+                lines.append(ln)
+                st = ln.lstrip()
+                if st.startswith("for c"):
+                    l = int(st[5:st.index(",")])
+                    nm = K6.lname(l, c6["tiles"])
+                    lines.append(" " * (len(ln) - len(st) + 4) + f"B[{nm!r}] = B.get({nm!r}, 0) + 1")
+            src = case["_src"] = "\n".join(lines)
+        env = {"Fiber": ft.Fiber, "Payload": ft.Payload, "B": bodies}
+        exec(compile(src, "<kernel>", "exec"), env)
+        env["kernel"](z, *ops)
+
+
+def _vals_tree(t, depth, f):
+    if depth == 1:
+        return [[c, f(v)] for c, v in t]
+    return [[c, _vals_tree(s, depth - 1, f)] for c, s in t]
+
+
+def run_program(case):
+    case = _run_measured(case, _ProgramRunner)
+    case.pop("_src", None)
+    return case
+
+
 def gen(seed, tier):
     rng = random.Random(seed)
     yield from gen_api(rng, tier)
     rng = random.Random(seed + 1)
     yield from gen_kernel(rng, tier)
+    rng = random.Random(seed + 2)
+    yield from gen_program(rng, seed, tier)
 
 
 # ---------------------------------------------------------------------------------------
@@ -488,14 +698,31 @@ def _flat(vals, n):
     return list(reversed(out))
 
 
-def _kernel(loops, out, z, ops, bodies):
+def _leaf_stmt(body, zc, vals):
+    """z_ref += a * b * ... in its different spellings (different Payload operators, same value)"""
+    P = H.ft().Payload
+    if body == "imul":
+        t = P(vals[0].value)
+        for v in vals[1:]:
+            t *= v
+        zc += t
+        return
+    prod = vals[0].value if body == "rmul" else vals[0]
+    for v in vals[1:]:
+        prod = prod * v                     # plain * Payload -> __rmul__, Payload * Payload -> __mul__
+    if body == "add_assign":
+        zc <<= zc + prod                    # __add__, __ilshift__
+    elif body == "radd_assign":
+        zc <<= P.get(prod) + zc             # plain + Payload -> __radd__, __ilshift__
+    else:
+        zc += prod
+
+
+def _kernel(loops, out, z, ops, bodies, body="iadd"):
     """the HiFiber loop nest: z_v << (a_v & b_v ...) on output ranks, a_v & b_v ... on reduced ones"""
     def level(i, zr, zc, ops):
         if i == len(loops):
-            prod = ops[0][1]
-            for o in ops[1:]:
-                prod = prod * o[1]
-            zc += prod
+            _leaf_stmt(body, zc, [o[1] for o in ops])
             return
         v = loops[i]
         parts = [k for k, o in enumerate(ops) if o[0] and o[0][0] == v]
@@ -522,28 +749,50 @@ def _kernel(loops, out, z, ops, bodies):
     level(0, out, z, ops)
 
 
-def _build(case):
-    ft = H.ft()
-    n = case["n"]
-    ops = []
-    for o in case["ops"]:
-        rk = o["ranks"]
-        t = ft.Tensor.fromFiber(rank_ids=list(rk), fiber=H.build_fiber(o["t"], len(rk), 0), shape=[n] * len(rk))
-        if o.get("ushape") is not None:
-            t.setFormat(rk[-1], "U")
-        ops.append([list(rk), t.getRoot()])
-    out = case["out"]
-    shape = [n] * len(out) if case["declared"] else None
-    if not out:
-        z = ft.Tensor(rank_ids=[])
-        if case["z"]:
-            root = z.getRoot()
-            root <<= case["z"]
-    elif case["z"]:
-        z = ft.Tensor.fromFiber(rank_ids=list(out), fiber=H.build_fiber(case["z"], len(out), 0), shape=shape)
-    else:
-        z = ft.Tensor(rank_ids=list(out), shape=shape) if shape else ft.Tensor(rank_ids=list(out))
-    return z, ops
+def _shape_of(mode, n, d):
+    return None if mode == "estimated" else [n + (3 if mode == "larger" else 0)] * d
+
+
+class _KernelRunner:
+    """the model-backed loop nests"""
+
+    @staticmethod
+    def build_ops(case):
+        ft = H.ft()
+        n = case["n"]
+        ops = []
+        for o in case["ops"]:
+            rk = o["ranks"]
+            kw = {}
+            sh = _shape_of(o.get("shape", "exact"), n, len(rk))
+            if sh is not None:
+                kw["shape"] = sh
+            t = ft.Tensor.fromFiber(rank_ids=list(rk), fiber=H.build_fiber(o["t"], len(rk), 0), **kw)
+            if o.get("ushape") is not None:
+                t.setFormat(rk[-1], "U")
+            ops.append([list(rk), t.getRoot()])
+        return ops
+
+    @staticmethod
+    def new_z(case, pre=False):
+        ft = H.ft()
+        n, out = case["n"], case["out"]
+        declared = True if pre else case["declared"]
+        shape = _shape_of(case.get("zshape", "exact"), n, len(out)) if declared else None
+        tree = None if pre else case["z"]
+        if not out:
+            z = ft.Tensor(rank_ids=[])
+            if tree:
+                z.getRoot().value = tree        # no Payload operator: nothing to count
+        elif tree:
+            z = ft.Tensor.fromFiber(rank_ids=list(out), fiber=H.build_fiber(tree, len(out), 0), shape=shape)
+        else:
+            z = ft.Tensor(rank_ids=list(out), shape=shape) if shape else ft.Tensor(rank_ids=list(out))
+        return z
+
+    @staticmethod
+    def execute(case, ops, z, bodies):
+        _kernel(case["loops"], case["out"], z.getRoot(), ops, bodies, case.get("body", "iadd"))
 
 
 class _Wrap:
@@ -596,77 +845,130 @@ def _numiters(path):
     return C.numIters(path)
 
 
-def _collect_run(case, d):
-    """beginCollect(prefix); trace(...); kernel; endCollect -- returns the observation"""
-    M = H.ft().Metrics
-    z, ops = _build(case)
-    bodies, obs = {}, {}
-    pfx = os.path.join(d, case["pfx"])
-    M.beginCollect(pfx)
-    for r, t in case["traces"]:
-        M.trace(r, type_=t)
-    with _Wrap() as w:
-        try:
-            _kernel(case["loops"], case["out"], z.getRoot(), ops, bodies)
-            obs["on"] = H.snapshot(z.getRoot())
-        except Exception as e:  # an abort with collection on is an observation
-            obs["on"] = {"err": type(e).__name__}
+def _attrs(z):
+    """what else a result tensor says about itself: rank ids, shape, default, per-rank format"""
     try:
-        M.endCollect()
+        ids = z.getRankIds()
+        return {"ids": ids, "shape": z.getShape(), "default": H._val(H.ft().Payload.get(z.getDefault())),
+                "fmt": [z.getFormat(r) for r in ids]}
     except Exception as e:
-        obs["end_err"] = type(e).__name__
-    dump = M.dump() or {}
-    comp = dump.get("Compute", {})
-    obs["dump"] = {"mul": comp.get("payload_mul", 0), "add": comp.get("payload_add", 0),
-                   "update": comp.get("payload_update", 0)}
-    obs["lines"] = sorted(dump.keys())
+        return {"err": type(e).__name__}
+
+
+def _err_info(e):
+    import traceback
+    tb = traceback.extract_tb(e.__traceback__)
+    line = (tb[-1].line or "") if tb else ""
+    return type(e).__name__, f"{type(e).__name__}: {line.strip()}"[:160]
+
+
+def _session(case, R, d, collect, with_pre):
+    """one measured run of the kernel; collect=True: inside beginCollect(prefix) ... endCollect()"""
+    M = H.ft().Metrics
+    obs, bodies = {}, {}
+    pfx = os.path.join(d, case["pfx"]) if d else None
+    inside = bool(case.get("inside")) and not case.get("pre")
+    ops = None if inside else R.build_ops(case)
+
+    def open_():
+        if collect:
+            M.beginCollect(pfx)
+            for r, t in case["traces"]:
+                M.trace(r, type_=t)
+
+    if with_pre and case.get("pre"):        # an earlier session of the same kernel on the same operand objects
+        open_()
+        try:
+            R.execute(case, ops, R.new_z(case, pre=True), {})
+        except Exception as e:
+            obs["pre_err"] = type(e).__name__
+        if collect:
+            try:
+                M.endCollect()
+            except Exception as e:
+                obs["pre_err"] = type(e).__name__
+    open_()
+    if inside:
+        ops = R.build_ops(case)              # operands (and the output) built inside the bracket
+    z = R.new_z(case)
+    w = _Wrap()
+    with w:
+        try:
+            for _ in range(case.get("repeat", 1)):
+                R.execute(case, ops, z, bodies)
+            obs["res"] = H.snapshot(z.getRoot())
+            obs["attrs"] = _attrs(z)
+            obs["ops_after"] = [H.snapshot(o.getRoot()) if hasattr(o, "getRoot") else H.snapshot(o[1]) for o in ops]
+        except Exception as e:  # an abort is an observation
+            name, line = _err_info(e)
+            obs["res"] = {"err": name}
+            obs["err_line"] = line
+    if collect:
+        try:
+            M.endCollect()
+        except Exception as e:
+            obs["end_err"] = type(e).__name__
+        dump = M.dump() or {}
+        comp = dump.get("Compute", {})
+        obs["dump"] = {"mul": comp.get("payload_mul", 0), "add": comp.get("payload_add", 0),
+                       "update": comp.get("payload_update", 0)}
+        obs["lines"] = sorted(dump.keys())
+        obs["iters"] = {}
+        obs["files"] = []
+        for r, t in case["traces"]:
+            path = f"{pfx}-{r}-{t}.csv"
+            rows = _read_file(path) if os.path.exists(path) else None
+            obs["files"].append([r, t, rows])
+            if t == "iter":
+                obs["iters"][r] = _numiters(path) if os.path.exists(path) else -1
     obs["wrap"] = dict(w.n)
     obs["bodies"] = bodies
-    obs["iters"] = {}
-    obs["files"] = []
-    for r, t in case["traces"]:
-        path = f"{pfx}-{r}-{t}.csv"
-        rows = _read_file(path) if os.path.exists(path) else None
-        obs["files"].append([r, t, rows])
-        if t == "iter":
-            obs["iters"][r] = _numiters(path) if os.path.exists(path) else -1
     return obs
 
 
-def run_kernel(case):
+def _run_measured(case, R):
     M = H.ft().Metrics
     side = {}
     _reset(M)
-    # collection off
-    z, ops = _build(case)
-    try:
-        _kernel(case["loops"], case["out"], z.getRoot(), ops, {})
-        off = H.snapshot(z.getRoot())
-    except Exception as e:
-        off = {"err": type(e).__name__}
+    off = _session(case, R, None, False, True)
     side["metrics_untouched_when_off"] = M.metrics is None and M.collecting is False and M.traces == {}
     d = _scratch()
     try:
         _rets, herr, _snap = _run_ops(M, case["hist"], d)
-        obs = _collect_run(case, d)
-        obs["hist_err"] = herr
+        on = _session(case, R, d, True, True)
     finally:
         shutil.rmtree(d, ignore_errors=True)
     _reset(M)
     d2 = _scratch()
     try:
-        fresh = _collect_run(case, d2)
+        fresh = _session(case, R, d2, True, False)
     finally:
         shutil.rmtree(d2, ignore_errors=True)
     _reset(M)
-    obs["off"] = off
-    obs["fresh"] = {"dump": fresh["dump"], "files": fresh["files"], "on": fresh["on"]}
-    if "end_err" in obs:
-        side["endCollect_ok:" + obs["end_err"]] = False
-    side["only_Compute_line"] = obs["lines"] in ([], ["Compute"])
+    obs = {"off": off["res"], "on": on["res"], "dump": on["dump"], "wrap": on["wrap"], "bodies": on["bodies"],
+           "iters": on["iters"], "files": on["files"], "lines": on["lines"], "hist_err": herr,
+           "err_line": on.get("err_line", ""),
+           "fresh": {"dump": fresh["dump"], "files": fresh["files"], "on": fresh["res"]}}
+    for o, nm in ((on, "on"), (off, "off")):
+        if "pre_err" in o:
+            side[f"earlier_session_of_the_kernel_ok({nm}):" + o["pre_err"]] = False
+    if "end_err" in on:
+        side["endCollect_ok:" + on["end_err"]] = False
+    side["only_Compute_line"] = on["lines"] in ([], ["Compute"])
+    side["earlier_sessions_ran"] = herr < 0
+    if "attrs" in on and "attrs" in off:
+        side["same_output_attributes_off_and_on"] = on["attrs"] == off["attrs"]
+        side["same_operands_left_behind_off_and_on"] = on["ops_after"] == off["ops_after"]
+        side["fresh_process_same_result"] = fresh.get("res") == on["res"] and fresh.get("attrs") == on["attrs"]
+    side["same_operators_off_and_on"] = off["wrap"] == on["wrap"] or "err" in str(on["res"])[:8] or "err" in str(off["res"])[:8]
+    side["same_loop_bodies_off_and_on"] = off["bodies"] == on["bodies"] or "err" in str(on["res"])[:8] or "err" in str(off["res"])[:8]
     case["impl"] = obs
     case["side"] = side
     return case
+
+
+def run_kernel(case):
+    return _run_measured(case, _KernelRunner)
 
 
 def run_api(case):
@@ -692,7 +994,9 @@ def run_api(case):
 
 
 def run(case):
-    return run_api(case) if case["kind"] == "api" else run_kernel(case)
+    if case["kind"] == "api":
+        return run_api(case)
+    return run_program(case) if case["kind"] == "program" else run_kernel(case)
 
 
 def nontrivial(case, verdict):
@@ -701,6 +1005,8 @@ def nontrivial(case, verdict):
         return False
     if case["kind"] == "api":
         return "session" in t and bool(t & {"started", "history", "rejected", "never-started"})
+    if case["kind"] == "program":
+        return "effectual" in t
     return bool(t & {"mul", "add", "traced-iterated", "revisit"})
 
 
@@ -733,7 +1039,7 @@ def _classes(why):
 
 
 def signature(case, verdict, failed):
-    kind = case["kind"]
+    kind = "kernel" if case["kind"] == "program" else case["kind"]      # programs are kernels: same finding classes
     cls = _classes(verdict.get("why", "")) if "spec" in failed else []
     sides = sorted(f.split(":")[0] for f in failed if f != "spec")
     new = [c for c in cls if c not in DOCUMENTED] + sides
@@ -780,6 +1086,30 @@ def shrink_candidates(case):
         c = dict(case)
         c["traces"] = case["traces"][:i] + case["traces"][i + 1:]
         yield c
+    for key in ("repeat", "pre", "inside"):
+        if case.get(key):
+            c = dict(case)
+            c.pop(key)
+            yield c
+    if case["kind"] == "program":
+        for i in range(len(case["fmtU"])):
+            c = dict(case)
+            c["fmtU"] = case["fmtU"][:i] + case["fmtU"][i + 1:]
+            c["nU"] = len(c["fmtU"])
+            c["solo_u"] = [r for r in case["solo_u"] if any(nm == r for _, nm in c["fmtU"])]
+            yield c
+        if case["vals"] != "int":
+            c = dict(case)
+            c["vals"] = "int"
+            yield c
+        for k, o in enumerate(case["k6"]["ops"]):
+            for t2 in _tree_shrinks(o["t"]):
+                c = dict(case)
+                c["k6"] = dict(case["k6"])
+                c["k6"]["ops"] = [dict(x) for x in case["k6"]["ops"]]
+                c["k6"]["ops"][k]["t"] = t2
+                yield c
+        return
     for k, o in enumerate(case["ops"]):
         for t2 in _tree_shrinks(o["t"]):
             c = dict(case)
